@@ -4,11 +4,12 @@ Import ListNotations.
 Require Import V.Weights.Model V.Weights.Proofs.
 Open Scope Z_scope.
 
-(* F20b: weights with four decimals that sum to one are NOT kept (0.3333 + 0.6667 -> 0.5/0.5),
-   and four-decimal weights that do NOT sum to one can be kept (0.3335 + 0.6675 = 1.001). *)
+(* F20b (repaired by a fix: commit): the pinned code judged weights by their truncated thousandths:
+   weights with four decimals that sum to one were NOT kept (0.3333 + 0.6667 -> 0.5/0.5), and
+   four-decimal weights that do NOT sum to one could be kept (0.3335 + 0.6675 = 1.001). *)
 Theorem C20_four_decimals_refuted :
-  (exists given, Forall (fun m => 0 <= m) given /\ sumZ given = 10000 /\ normalise given <> given) /\
-  (exists given, normalise given = given /\ sumZ given <> 10000).
+  (exists given, Forall (fun m => 0 <= m) given /\ sumZ given = 10000 /\ normalise_trunc given <> given) /\
+  (exists given, normalise_trunc given = given /\ sumZ given <> 10000).
 Proof.
   split.
   - exists [3333; 6667]. split; [repeat constructor; discriminate|]. split; [reflexivity|discriminate].
